@@ -14,7 +14,7 @@ CONSTANTS K,        \* number of header lines drawn from the pool (besides an op
 
 H(n, v)            == GenHdrLine(n, WS0, WS1, v, WS0, CRLF)
 \* the pool is indexed lazily (TLC would otherwise rebuild all lines for every message)
-PoolSize == 44
+PoolSize == 48
 PoolLine(i) ==
   CASE i = 1 -> H(N_From, V_from1)
     [] i = 2 -> GenHdrLine(N_f, WS0, WS0, V_from3, WS0, LFONLY)
@@ -59,7 +59,11 @@ PoolLine(i) ==
     [] i = 41 -> H(N_Fro, V_x1)
     [] i = 42 -> H(N_Fromm, V_x1)
     [] i = 43 -> H(N_ContentLengt, V_expires2)
-    [] i = 44 -> H(N_L, V_x1)
+    [] i = 44 -> GenHdrLine(N_UA, WS0, WS1, V_empty, WS0, CRLF)
+    [] i = 45 -> GenHdrLine(N_Route, WS0, WS0, V_empty, WS0, LFONLY)
+    [] i = 46 -> GenHdrLine(N_v, WS1, WS1, V_empty, WS1, CRLF)
+    [] i = 47 -> GenHdrLine(N_maxfwd, WS0, WS0, V_empty, WS0, CRLF)
+    [] i = 48 -> H(N_L, V_x1)
 \* NOTE: the last line "L: bar" is a Content-Length header by name with a non-numeric value: NOT well formed,
 \* it is excluded from the well-formed pool below and only used by near-miss explorations.
 NPool == PoolSize - 1
@@ -89,11 +93,25 @@ ChoicesFraming == {1, 6} \X (UNION { [1..k -> {1, 8, 11, 14, 19, 33}] : k \in 1.
 MsgFraming(x) == GenMsg(0, 34, FLs[x[1]], CRLF, FramingLines(x[2], x[3], x[4], x[5]), CRLF, Bodies[x[6]], x[3], x[7], 64)
 
 \* slice "caps": header capacity smaller than the number of headers (stored prefix, total count): C07 / C13
-ChoicesCaps == (UNION { [1..k -> {1, 5, 8, 11, 14, 19, 20, 30, 33, 35}] : k \in 1..K }) \X {-1, 0, 1, 2}
+ChoicesCaps == (UNION { [1..k -> {1, 5, 8, 11, 14, 19, 20, 27, 30, 33, 35, 44, 45, 46}] : k \in 1..K }) \X {-1, 0, 1, 2}
 MsgCaps(x) == GenMsg(0, 34, FLs[1], CRLF, Lines(x[1]), CRLF, BODY0, -1, 0, x[2])
 
-Choices == CASE Part = "hdrs" -> ChoicesHdrs [] Part = "framing" -> ChoicesFraming [] Part = "caps" -> ChoicesCaps
-Msg(x)  == CASE Part = "hdrs" -> MsgHdrs(x) [] Part = "framing" -> MsgFraming(x) [] Part = "caps" -> MsgCaps(x)
+\* slice "bigclen": a numeric header whose value is out of range or over-long (Content-Length above 2^24 or longer
+\* than 9 characters, Expires / CSeq above 32 bits) between pool lines: the message must be REJECTED (C10); the wires
+\* feed the resumption explorations (a cut inside the number must not change the verdict)
+BigNums == <<V_big1, V_big2, V_big3, V_big4, V_big5>>
+BigLine(k, n) == CASE k = 1 -> GenHdrLine(N_CLen, WS0, WS1, BigNums[n], WS0, CRLF)
+                   [] k = 2 -> GenHdrLine(N_l, WS0, WS0, BigNums[n], WS1, CRLF)
+                   [] k = 3 -> GenHdrLine(N_Expires, WS0, WS1, BigNums[n], WS0, CRLF)
+                   [] k = 4 -> GenHdrLine(N_CSeq, WS0, WS1, BigNums[n] \o <<SP, 65, 67, 75>>, WS0, CRLF)
+\* (Expires / CSeq are 32 bit: only V_big2 = 2^32 and V_big4 = 99999999999 are out of range for them)
+ChoicesBig == { x \in {1, 6} \X {1, 8, 14, 19, 33} \X (1..4) \X (1..Len(BigNums)) \X {0, 1} \X {0, 4} : x[3] <= 2 \/ x[4] \in {2, 4} }
+MsgBig(x) == LET ls == IF x[5] = 0 THEN <<PoolLine(x[2]), BigLine(x[3], x[4])>> ELSE <<BigLine(x[3], x[4]), PoolLine(x[2])>>
+                 m == GenMsg(0, 34, FLs[x[1]], CRLF, ls, CRLF, BODY3, -1, x[6], 64)
+             IN [m EXCEPT !.err = "ERR", !.offs = -1]
+
+Choices == CASE Part = "hdrs" -> ChoicesHdrs [] Part = "bigclen" -> ChoicesBig [] Part = "framing" -> ChoicesFraming [] Part = "caps" -> ChoicesCaps
+Msg(x)  == CASE Part = "hdrs" -> MsgHdrs(x) [] Part = "bigclen" -> MsgBig(x) [] Part = "framing" -> MsgFraming(x) [] Part = "caps" -> MsgCaps(x)
 
 VARIABLE c
 Init == c \in Choices
@@ -103,6 +121,7 @@ Spec == Init /\ [][Next]_c
 ObsFor(m) == CASE Prop = "C07" -> [HL |-> m.obs.HL]
                [] Prop = "C06" -> [Body |-> m.obs.Body, RawMsg |-> m.obs.RawMsg, Parsed |-> m.obs.Parsed]
                [] Prop = "corpus" -> [n |-> m.nhdr]
+               [] Prop = "C10" -> [n |-> m.nhdr]
                [] OTHER -> m.obs
 Cfg(m) == [kind |-> "msg", start |-> 0, flags |-> m.flags, hcap |-> m.hcap, ccap |-> -1, pcap |-> -1]
 \* one oracle record per generated message; GenSane: model-level sanity of the generator itself
@@ -111,12 +130,13 @@ Emit == LET m == Msg(c) IN
           /\ \A k \in 1..Len(m.obs.HL.Hdrs) :
                 LET h == m.obs.HL.Hdrs[k] IN h.Name[1] + h.Name[2] <= Len(m.wire) /\ h.Val[1] + h.Val[2] <= Len(m.wire)
           /\ PrintT(ToJson([k |-> "msg", cfg |-> Cfg(m), wire |-> m.wire, cuts |-> <<Len(m.wire)>>,
-                            offs |-> m.offs, err |-> m.err, obs |-> ObsFor(m),
+                            offs |-> m.offs, err |-> m.err, errs |-> (IF m.err = "ERR" THEN <<"ERR">> ELSE <<>>), obs |-> ObsFor(m),
                             src |-> (IF Prop = "corpus" THEN "gen" ELSE "decl"), prop |-> Prop]))
 \* Model level: the transcription (SIPMsg.tla) parses every generated message as the ghost intends (Auto = Decl on
 \* the generator's domain) and its observation satisfies the C05 predicate.
 AutoRun(m) == Msg_Call(m.wire, 0, Msg_New(Cfg(m)), Cfg(m))
 AutoEqDecl == LET m == Msg(c)  r == AutoRun(m) IN
+                IF m.err = "ERR" THEN r.err \notin {OK, MORE, EOH, EMPTY, MOREVALUES} ELSE
                 /\ r.err = m.err /\ r.offs = m.offs
                 /\ (m.err = OK => /\ Msg_Obs(r.st).HL = m.obs.HL /\ Msg_Obs(r.st).Body = m.obs.Body
                                   /\ Msg_Obs(r.st).RawMsg = m.obs.RawMsg)
